@@ -12,7 +12,9 @@
 (*   extra : an unrelated lambda in the same statement (none, before /     *)
 (*           after the chain, with the same or another parameter name)     *)
 (*   pre   : another statement before it on the same physical line         *)
-(*   kind  : "lambda" | "def" (one-line function passed by name)           *)
+(*   kind  : "lambda" | "def" (one-line function passed by name) | "var"   *)
+(*           (lambda assigned to a variable first) | "wrapped" (passed      *)
+(*           through a wrapper call keep(lambda ..))                        *)
 (* Supported(layout, lines) formalises the documented layouts (DESIGN.md    *)
 (* A.3); lines[i] = physical lines occupied by call site i (the extra       *)
 (* lambda's call site is the last entry when there is one).                 *)
@@ -35,6 +37,9 @@ Keys(lay) == [i \in 1..Len(lay.calls) |-> <<lay.calls[i].op, lay.calls[i].p>>]
                    [] OTHER -> <<<<"keep", "P">>>>)
 Distinguishable(lay) == LET ks == Keys(lay) IN \A i, j \in 1..Len(ks) : i # j => ks[i] # ks[j]
 LinesDisjoint(lines) == \A i, j \in 1..Len(lines) : i # j => Range(lines[i]) \cap Range(lines[j]) = {}
-Supported(lay, lines) == Distinguishable(lay) \/ LinesDisjoint(lines)
+(* only a lambda (or one-line def) written directly as the operator's argument is a supported layout; a lambda *)
+(* that reaches the operator through a variable or a wrapper call must still be the right one, or raise     *)
+Direct(lay) == lay.kind \in {"lambda", "def"}
+Supported(lay, lines) == Direct(lay) /\ (Distinguishable(lay) \/ LinesDisjoint(lines))
 
 =============================================================================
